@@ -124,6 +124,23 @@ def _evo_configs(tier, seed):
        "population_init=pg.geno.Sweeping(), "
        "population_update=ev.selectors.Last(2))",
        False, True, ['c3']),
+      # Population initializers that carry state / attach metadata of their
+      # own: seeded Random, Deduping over Random and over Sweeping.
+      ('evolution-init-dedup-random',
+       f"ev.Evolution(ev.selectors.Top(1) >> {mut}, "
+       f"population_init=(pg.geno.Deduping(pg.geno.Random(seed={s}), max_proposal_attempts=20), 4), "
+       "population_update=ev.selectors.Last(4))",
+       False, True, ['c2xc3', 'cond']),
+      ('evolution-init-dedup-sweeping',
+       f"ev.Evolution(ev.selectors.Top(1) >> {mut}, "
+       f"population_init=(pg.geno.Deduping(pg.geno.Sweeping(), hash_fn={_SUM}), 3), "
+       "population_update=ev.selectors.Last(3))",
+       False, True, ['cond', 'many']),
+      ('evolution-unsized-init-dedup',
+       f"ev.Evolution(ev.selectors.Top(1) >> {mut}, "
+       f"population_init=pg.geno.Deduping(pg.geno.Sweeping(), hash_fn={_SUM}), "
+       "population_update=ev.selectors.Last(2))",
+       False, True, ['c2xc3']),
   ]
   if tier != 'quick':
     cfgs += [
@@ -221,6 +238,21 @@ def _late_first(n):
   return ev_
 
 
+def _refused(n, lag):
+  """Lagged in-order feedback; proposals 1, 4, 7, ... are first fed back with a
+  reward the algorithm refuses; proposal 4 (10, ...) never gets a proper one."""
+  ev_ = []
+  for i in range(n):
+    ev_.append('p')
+    j = i - lag
+    if j >= 0:
+      if j % 3 == 1:
+        ev_.append(('x', j))
+      if j % 6 != 4:
+        ev_.append(j)
+  return ev_
+
+
 def _patterns(n, tier, seed, salt):
   pats = [
       ('lockstep', 'in-order', _pipelined(n, 0)),
@@ -231,6 +263,9 @@ def _patterns(n, tier, seed, salt):
       ('holes3', 'holes', _holes(n, 3, 1)),
       ('rev2', 'out-of-order', _burst(n, 2, True)),
       ('late0', 'out-of-order', _late_first(n)),
+      # Only for single-objective algorithms that consume feedback.
+      ('refused0', 'refused', _refused(n, 0)),
+      ('refused1', 'refused', _refused(n, 1)),
   ]
   if tier != 'quick':
     pats += [
@@ -263,6 +298,8 @@ def _classify(events):
   for e in events:
     if e == 'p':
       made += 1
+      continue
+    if isinstance(e, tuple):   # refused feedback call: not a feedback
       continue
     if e < last:
       return 'out-of-order'
@@ -320,6 +357,18 @@ def _cache(algo):
   return {k: list(v) for k, v in c.items()}
 
 
+def _gen_kind(g):
+  if isinstance(g, pg.geno.Deduping):
+    return 'dedup-' + _gen_kind(g.generator)
+  return type(g).__name__.lower()
+
+
+def _initializer(evolution):
+  """The population initializer (a DNAGenerator nested in the algorithm)."""
+  init = evolution.population_init
+  return init[0] if isinstance(init, tuple) else init
+
+
 def _observe(algo):
   o = dict(counts=(algo.num_proposals, algo.num_feedbacks))
   inner = algo
@@ -328,6 +377,14 @@ def _observe(algo):
     inner = algo.generator
     o['inner_counts'] = (inner.num_proposals, inner.num_feedbacks)
   if isinstance(inner, ev.Evolution):
+    init = _initializer(inner)
+    o['init_counts'] = (init.num_proposals, init.num_feedbacks)
+    o['init_kind'] = _gen_kind(init) + '-initializer'
+    o['init_cache'] = None
+    o['init_rejected'] = False
+    if isinstance(init, pg.geno.Deduping):
+      o['init_cache'] = {k: len(v) for k, v in _cache(init).items()}
+      o['init_rejected'] = init.generator.num_proposals > init.num_proposals
     o['pop'] = _pop(inner)
     o['pop_ids'] = _pop_ids(inner)
     o['gens'] = inner.num_generations
@@ -345,9 +402,18 @@ def _next_meta(d):
 # ---------------------------------------------------------------------------
 
 class _Run:
-  """Executes the pattern on a fresh instance, snapshotting every prefix."""
+  """Executes the pattern on a fresh instance, snapshotting every prefix.
 
-  def __init__(self, algo_expr, space_expr, events, rewards, extra=0):
+  Events: 'p' propose; int i: feed back proposal i; ('x', i): a feedback call
+  for proposal i that the algorithm REFUSES (a 2-tuple reward given to a
+  single-objective, feedback-consuming algorithm -> ValueError).  A refused
+  call is no feedback: it is not part of the persisted history.  Likewise a
+  propose() that raises StopIteration is no proposal (with
+  `continue_after_stop` the run goes on after it, else it ends there).
+  """
+
+  def __init__(self, algo_expr, space_expr, events, rewards, extra=0,
+               continue_after_stop=False):
     self.space = eval(space_expr, _NS)  # pylint: disable=eval-used
     self.algo = eval(algo_expr, _NS)    # pylint: disable=eval-used
     self.algo.setup(self.space)
@@ -355,21 +421,30 @@ class _Run:
     self.prop_json = []      # JSON of each DNA as of its proposal
     self.rewards = []        # actual reward per proposal (None: not fed)
     self.executed = []       # executed events so far
+    self.outcomes = []       # str(DNA) / 'STOP' of every executed propose()
     self.snaps = []          # one per prefix (incl. the empty one)
     self.stopped = False
+    self.refused = 0
+    self.failed_proposes = 0
     self.error = None        # the algorithm itself failed (not a C15 matter)
     self._snap()
     for e in events:
       if e == 'p':
-        if not self._propose():
+        if self.failed_proposes >= 2:
+          continue
+        if not self._propose(continue_after_stop):
           break
+      elif isinstance(e, tuple):
+        i = e[1]
+        if i < len(self.dnas) and self.rewards[i] is None:
+          self._refuse(i, rewards[i])
       else:
         if e >= len(self.dnas) or self.rewards[e] is not None:
           continue
         self._feed(e, rewards[e])
     # Continuation of the uninterrupted run (deterministic generators).
     self.tail = []
-    if extra and not self.stopped and self.error is None:
+    if extra and self.error is None and (continue_after_stop or not self.stopped):
       for _ in range(extra):
         try:
           self.tail.append(str(self.algo.propose()))
@@ -377,12 +452,17 @@ class _Run:
           self.tail.append('STOP')
           break
 
-  def _propose(self):
+  def _propose(self, continue_after_stop=False):
     try:
       d = self.algo.propose()
     except StopIteration:
       self.stopped = True
-      return False
+      self.failed_proposes += 1
+      self.outcomes.append('STOP')
+      if continue_after_stop:
+        self.executed.append('p')
+        self._snap()
+      return continue_after_stop
     except Exception as e:  # pylint: disable=broad-except
       # E.g. NEAT divides by zero when all members of the population have
       # the same fitness.  The uninterrupted run ends here.
@@ -390,6 +470,7 @@ class _Run:
       return False
     self.dnas.append(d)
     self.rewards.append(None)
+    self.outcomes.append(str(d))
     self.prop_json.append(pg.to_json_str(d))
     self.executed.append('p')
     self._snap(proposed=d)
@@ -405,6 +486,17 @@ class _Run:
     self.executed.append(i)
     self._snap(fed=i)
 
+  def _refuse(self, i, reward):
+    try:
+      self.algo.feedback(self.dnas[i], (reward, 0.5))
+    except ValueError:
+      self.refused += 1
+      self.executed.append(('x', i))
+      self._snap()
+      return
+    raise AssertionError(
+        'a 2-tuple reward was accepted by a single-objective algorithm that needs feedback')
+
   def _snap(self, proposed=None, fed=None):
     hist = [[d, r] for d, r in zip(self.dnas, self.rewards)]
     inner_np = None
@@ -416,6 +508,10 @@ class _Run:
         hist_json=pg.to_json_str(hist),
         obs=_observe(self.algo),
         k=len(self.dnas),
+        pos=len(self.outcomes),
+        refused=self.refused,
+        failed_proposes=self.failed_proposes,
+        initial=[bool(d.metadata.get('initial_population')) for d in self.dnas],
         last_fed=fed,
         proposed=(None if proposed is None
                   else (str(proposed), _next_meta(proposed),
@@ -424,11 +520,8 @@ class _Run:
     ))
 
   def all_proposals(self):
-    """str(DNA) of all proposals; 'STOP' appended if the run is exhausted."""
-    out = [str(d) for d in self.dnas]
-    if self.stopped:
-      return out + ['STOP']
-    return out + self.tail
+    """Outcome (str(DNA) / 'STOP') of every propose() of the uninterrupted run."""
+    return self.outcomes + self.tail
 
 
 def _history(run, snap, variant):
@@ -476,8 +569,11 @@ mk=lambda:{algo}
 E={events};R={rewards}
 a=mk();a.setup(S);P=[];J=[];F=[]
 for e in E:
-  if e=='p':P.append(a.propose()){snapshot}
-  else:a.feedback(P[e],R[e]);F.append(e)
+  try:
+    if e=='p':P.append(a.propose()){snapshot}
+    elif e<0:a.feedback(P[-e-1],(1.,.5))
+    else:a.feedback(P[e],R[e]);F.append(e)
+  except (StopIteration,ValueError):pass
 H=pg.from_json_str(pg.to_json_str([[d,R[i] if i in F else None] for i,d in enumerate(P)]))
 {pick}b=mk();b.setup(S);{recover}
 """
@@ -489,6 +585,7 @@ _W_PICK = {
 }
 
 _G = "getattr(g,'generator',g)"
+_I = "(lambda i:i[0] if isinstance(i,tuple) else i)(g.population_init)"
 _W_CHECK = {
     'counts': "f=lambda g:(g.num_proposals,g.num_feedbacks)",
     'inner_counts': "f=lambda g:(g.generator.num_proposals,g.generator.num_feedbacks)",
@@ -506,6 +603,9 @@ _W_CHECK = {
     'next': ("f=lambda g:(lambda d:[d.metadata.get(k) for k in "
              "('proposal_id','initial_population')])(g.propose())"),
     'next_gen': "f=lambda g:g.propose().metadata.get('generation_id')",
+    'next_dna': "f=lambda g:str(g.propose())",
+    'init_np': f"f=lambda g:{_I}.num_proposals",
+    'init_cache': f"f=lambda g:{{k:len(v) for k,v in {_I}._cache.items()}}",
 }
 
 _W_CONT = """def f(g):
@@ -520,7 +620,8 @@ _W_CONT = """def f(g):
 def _witness(space_expr, algo_expr, snap, variant, check, chunk=None, m=0):
   rec = 'b.recover(H)' if chunk is None else f'b.recover(H[:{chunk}]);b.recover(H[{chunk}:])'
   w = _W_HEAD.format(space=space_expr, algo=algo_expr,
-                     events=repr(snap['events']).replace(' ', ''),
+                     events=repr([-e[1] - 1 if isinstance(e, tuple) else e
+                                  for e in snap['events']]).replace(' ', ''),
                      rewards=repr(snap['rewards']).replace(' ', ''),
                      pick=_W_PICK[variant], recover=rec,
                      snapshot=('' if variant == 'crash' else ';J.append(pg.to_json_str(P[-1]))'))
@@ -554,7 +655,8 @@ def _det_combos(tier, seed, n):
     elif len(spaces) > 3:
       spaces = [spaces[0]] + _rot(spaces[1:], seed + ci, 2)
     for j, sp in enumerate(spaces):
-      pats = _patterns(n, tier, seed, f'{algo_expr}-{sp}')
+      # (These generators do not consume feedback and never refuse one.)
+      pats = [p for p in _patterns(n, tier, seed, f'{algo_expr}-{sp}') if p[1] != 'refused']
       if tier == 'quick':
         want = {_QUICK_DET[(ci + j + seed) % len(_QUICK_DET)]}
         if j == 0:
@@ -576,12 +678,16 @@ def _evo_combos(configs, tier, seed, n):
       if tier == 'quick':
         want = {_IN_ORDER[(ci + j + seed) % len(_IN_ORDER)], 'holes3',
                 _OUT_OF_ORDER[(ci + j + seed) % len(_OUT_OF_ORDER)]}
+        if not multi:
+          want.add(f'refused{(ci + j + seed) % 2}')
       else:
         ino = [p[0] for p in pats if p[1] == 'in-order' and not p[0].startswith('rand')]
         ooo = [p[0] for p in pats if p[1] == 'out-of-order' and not p[0].startswith('rand')]
         hol = [p[0] for p in pats if p[1] == 'holes' and not p[0].startswith('rand')]
         want = (set(_rot(ino, 2 * (ci + j + seed), 2)) | set(_rot(hol, ci + j + seed, 1))
                 | set(_rot(ooo, ci + j + seed, 1)) | {'rand0', 'rand1'})
+        if not multi:
+          want |= {'refused0', 'refused1'}
       pats = [p for p in pats if p[0] in want]
       for pname, pcls, events in pats:
         yield kind, algo_expr, multi, single, sp, pname, events
@@ -610,7 +716,8 @@ def drv_recover_deterministic(tier, seed):
     r = rng(seed, f'c15-det-{algo_expr}-{sp}')
     rewards = _rewards(n + 2, False, r)
     run = rec.guard(f'det.uninterrupted-run-error/{kind}', (algo_expr, sp, pname),
-                    lambda: _Run(algo_expr, space_expr, events, rewards, extra=m + 1),  # pylint: disable=cell-var-from-loop
+                    lambda: _Run(algo_expr, space_expr, events, rewards, extra=m + 1,  # pylint: disable=cell-var-from-loop
+                                 continue_after_stop=True),
                     witness=f'# uninterrupted run of {algo_expr} on {space_expr} raised')
     if run is None or run is False:
       continue
@@ -646,17 +753,28 @@ def drv_recover_deterministic(tier, seed):
             continue
           ob = _observe(b)
           oa = snap['obs']
-          case('counts', f'{pre}.counts/{kind}', ob['counts'] == oa['counts'],
+          # A propose() that raised StopIteration is no proposal: it is not in
+          # the history and must have left no trace in the counters.
+          sfx = '/after-exhausted-propose' if snap['failed_proposes'] else ''
+          case('counts', f'{pre}.counts/{kind}{sfx}', ob['counts'] == oa['counts'],
                f'recovered (num_proposals, num_feedbacks)={ob["counts"]}, '
                f'uninterrupted {oa["counts"]}',
                _witness(space_expr, algo_expr, snap, variant, 'counts', chunk))
           if oa.get('cache') is not None and ob.get('cache') is not None:
             ca = {k: len(v) for k, v in oa['cache'].items()}
             cb = {k: len(v) for k, v in ob['cache'].items()}
-            case('memory', f'{pre}.dedup-memory/{kind}', ca == cb,
+            case('memory', f'{pre}.dedup-memory/{kind}{sfx}', ca == cb,
                  f'recovered key->count {cb}, uninterrupted {ca}',
                  _witness(space_expr, algo_expr, snap, variant, 'cache_counts', chunk))
-          want = allp[snap['k']:snap['k'] + m]
+          if snap['failed_proposes']:
+            # The statement speaks of crash points after proposals and
+            # feedbacks.  What a generator does after a propose() that raised
+            # StopIteration (e.g. Deduping gave up after max_proposal_attempts
+            # rejected duplicates, which are not part of the history) is
+            # outside of it; exhaustion itself is compared at the crash point
+            # before the failing call.
+            continue
+          want = allp[snap['pos']:snap['pos'] + m]
           if 'STOP' in want:
             want = want[:want.index('STOP') + 1]
           got = _continue(b, len(want)) if want else []
@@ -683,8 +801,11 @@ def _evo_checks(rec, pre, kind, single, cls, key, oa, ob, snap, nxt, b, wit, ded
   """
   order = _order(cls)
   in_flight = any(r is None for r in snap['rewards'])
+  # A refused feedback call is no feedback (it is not in the history): runs
+  # with such calls get their own id for the counters.
+  rsfx = '/after-refused-feedback' if snap['refused'] else ''
   counts_ok = rec.case(
-      f'{pre}.counts', key, ob['counts'] == oa['counts'],
+      f'{pre}.counts{rsfx}', key, ob['counts'] == oa['counts'],
       f'recovered (num_proposals, num_feedbacks)={ob["counts"]}, uninterrupted {oa["counts"]}',
       wit('counts'))
   inner_ok = True
@@ -708,7 +829,7 @@ def _evo_checks(rec, pre, kind, single, cls, key, oa, ob, snap, nxt, b, wit, ded
       f'{pre}.population/{order}', key, ob['pop'] == oa['pop'],
       f'recovered population {ob["pop"]}, uninterrupted {oa["pop"]}', wit('pop'))
   secondary = pop_ok and cls != 'out-of-order'
-  if secondary and inner_ok:
+  if secondary and inner_ok and counts_ok:
     rec.case(f'{pre}.population-ids', key, ob['pop_ids'] == oa['pop_ids'],
              f'(proposal_id, feedback_sequence_number, generation_id) of the population members: '
              f'recovered {ob["pop_ids"]}, uninterrupted {oa["pop_ids"]}', wit('pop_ids'))
@@ -718,6 +839,23 @@ def _evo_checks(rec, pre, kind, single, cls, key, oa, ob, snap, nxt, b, wit, ded
   if secondary and oa['species'] is not None:
     rec.case(f'{pre}.neat-species', key, ob['species'] == oa['species'],
              f'recovered species {ob["species"]}, uninterrupted {oa["species"]}', wit('species'))
+  # State of the population initializer (a nested generator): its proposal
+  # count, and its de-duplication memory if it de-duplicates.  Inside Deduping
+  # the inner algorithm is not recovered at all (see dedup-evo.inner-counts).
+  init_ok = not dedup
+  if not dedup:
+    in_flight_init = any(f and r is None for f, r in zip(snap['initial'], snap['rewards']))
+    icls = ('with-in-flight-initial-proposals' if in_flight_init
+            else 'all-initial-proposals-fed-back')
+    init_ok = rec.case(
+        f'{pre}.initializer.num_proposals/{icls}', key,
+        ob['init_counts'][0] == oa['init_counts'][0],
+        f'population initializer {oa["init_kind"]}: recovered num_proposals '
+        f'{ob["init_counts"][0]}, uninterrupted {oa["init_counts"][0]}', wit('init_np'))
+    if init_ok and oa['init_cache'] is not None and ob['init_cache'] is not None:
+      rec.case(f'{pre}.initializer.dedup-memory', key, ob['init_cache'] == oa['init_cache'],
+               f'de-duplication memory (key -> count) of the population initializer: recovered '
+               f'{ob["init_cache"]}, uninterrupted {oa["init_cache"]}', wit('init_cache'))
   if nxt is None:
     phase = 'phase-unknown'
   else:
@@ -735,6 +873,7 @@ def _evo_checks(rec, pre, kind, single, cls, key, oa, ob, snap, nxt, b, wit, ded
   try:
     d = b.propose()
     got = (_next_meta(d), d.metadata.get('generation_id'))
+    got_dna = str(d)
     err = None
   except Exception as e:  # pylint: disable=broad-except
     got, err = None, f'{type(e).__name__}: {e}'
@@ -743,11 +882,21 @@ def _evo_checks(rec, pre, kind, single, cls, key, oa, ob, snap, nxt, b, wit, ded
     # must evolve again, which may fail for reasons unrelated to recovery
     # (NEAT divides by zero on a population with equal fitness).
     return
-  tag = 'unsized-initializer' if kind == 'evolution-unsized-init' else 'sized-initializer'
+  tag = ('unsized-initializer' if kind.startswith('evolution-unsized-init')
+         else 'sized-initializer')
   ok = rec.case(
       f'{pre}.next-proposal/{phase}/{tag}', key, got is not None and got[0] == nxt[1],
       f'next proposal of the recovered instance has (proposal_id, initial_population)='
       f'{got and got[0]} (error: {err}); the uninterrupted run proposes {nxt[1]}', wit('next'))
+  if ok and init_ok and phase == 'initial-population-phase':
+    # The initializers used here (Sweeping, Random(seed), Deduping over them)
+    # propose as a function of history and seed.
+    cid = f'{pre}.next-proposal-dna/initial-population-phase/{oa["init_kind"]}'
+    if oa['init_rejected']:
+      cid += '/rejected-duplicates-before-crash'
+    rec.case(cid, key, got_dna == nxt[0],
+             f'next initial individual: recovered instance proposes {got_dna}, the uninterrupted '
+             f'run {nxt[0]}', wit('next_dna'))
   if ok and gens_ok and single:
     rec.case(f'{pre}.next-proposal-generation/{tag}', key, got[1] == nxt[2],
              f'generation_id of the next proposal: recovered {got[1]}, uninterrupted {nxt[2]}',
@@ -765,10 +914,13 @@ def _drv_evo(rec, pre, configs, tier, seed, n, dedup):
                     witness=f'# uninterrupted run of {algo_expr} on {space_expr} raised')
     if run is None or run is False:
       continue
+    refused_pattern = pname.startswith('refused')
     for ci, snap in enumerate(run.snaps):
+      if refused_pattern and not snap['refused']:
+        continue        # such prefixes are covered by the other patterns
       cls = _classify(snap['events'])   # class of the prefix actually executed
       variants = ['crash']
-      if cls != 'out-of-order':
+      if cls != 'out-of-order' and not (quick and refused_pattern):
         # Without the feedback sequence numbers the history does not tell the
         # feedback order, so these variants are limited to in-order feedback.
         if not quick or ci % 3 == 0:
@@ -822,7 +974,238 @@ def drv_recover_dedup_evolution(tier, seed):
   return rec.result()
 
 
-DRIVERS = [drv_recover_deterministic, drv_recover_evolution, drv_recover_dedup_evolution]
+# ---------------------------------------------------------------------------
+# History persisted by a tuning backend: the trials of a study.
+#
+# The uninterrupted run is driven through `pg.sample` (in-memory backend, one
+# worker group per proposal so that several trials can be in flight).  What
+# survives a crash are the stored trials; the history for `recover` is built
+# from them the way a backend does: (trial.dna, trial.get_reward_for_feedback(
+# metrics_to_optimize)).  Trials whose reward never reached the algorithm are
+# pending ones (with or without intermediate measurements) and ones abandoned
+# with `feedback.skip()`.
+# ---------------------------------------------------------------------------
+
+def _trial_configs(tier, seed):
+  """(kind, algo_expr, metrics_to_optimize, deterministic, spaces)."""
+  s = 1 + seed
+  mut = f"ev.mutators.Uniform(seed={s})"
+  cfgs = [
+      ('sweeping', "pg.geno.Sweeping()", ['reward'], True, ['c2xc3', 'cond']),
+      ('random', f"pg.geno.Random(seed={s})", ['acc'], True, ['float', 'many']),
+      ('dedup-sweeping', f"pg.geno.Deduping(pg.geno.Sweeping(), hash_fn={_SUM}, max_duplicates=2)",
+       ['reward'], True, ['cond', 'c2xc3']),
+      ('evolution',
+       f"ev.Evolution(ev.selectors.Top(1) >> {mut}, "
+       "population_init=(pg.geno.Sweeping(), 3), "
+       "population_update=ev.selectors.Last(4))",
+       ['reward'], False, ['c2xc3', 'cond']),
+      ('regularized_evolution',
+       f"ev.regularized_evolution({mut}, population_size=3, tournament_size=2, seed={s})",
+       ['acc'], False, ['cond', 'float']),
+      ('hill_climb',
+       f"ev.hill_climb({mut}, batch_size=1, init_population_size=2, seed={s})",
+       ['reward'], False, ['float', 'many']),
+      ('nsga2', f"ev.nsga2({mut}, population_size=2, seed={s})",
+       ['reward', 'cost'], False, ['c2xc3', 'many']),
+  ]
+  return cfgs
+
+
+def _trial_patterns(n):
+  """Events: 'p'; ('d', i) measurement + done; ('m', i) intermediate
+  measurement only; ('s', i) skip.  Completions are in proposal order."""
+  p1, p2, p3 = [], [], []
+  for i in range(n):
+    p1 += ['p', ('s', i) if i % 3 == 1 else ('d', i)]
+    p2.append('p')
+    j = i - 1
+    if j >= 0:
+      p2.append(('m', j))
+      if j % 4 != 2:
+        p2.append(('d', j))
+    p3.append('p')
+    j = i - 2
+    if j >= 0:
+      if j % 2 == 0:
+        p3.append(('m', j))
+      p3.append(('s', j) if j % 3 == 0 else ('d', j))
+  return [('lockstep-skips', p1), ('lag1-measured', p2), ('lag2-measured-skips', p3)]
+
+
+def _measurement_args(metrics, reward):
+  """(reward, metrics) arguments of Feedback.add_measurement."""
+  if metrics == ['reward']:
+    return (reward, None)
+  if len(metrics) == 1:
+    return (None, {metrics[0]: reward})
+  return (tuple(reward), None)
+
+
+_STUDY_NO = [0]
+
+
+class _TrialRun:
+  """Uninterrupted run through pg.sample, snapshotting the stored trials."""
+
+  def __init__(self, algo_expr, space_expr, metrics, events, args, extra):
+    import os  # pylint: disable=g-import-not-at-top
+    _STUDY_NO[0] += 1
+    self.study = f'c15-bounded-{os.getpid()}-{_STUDY_NO[0]}'
+    self.space = eval(space_expr, _NS)  # pylint: disable=eval-used
+    self.algo = eval(algo_expr, _NS)    # pylint: disable=eval-used
+    self.metrics = metrics
+    self.fbs = []
+    self.state = []          # per proposal: 'pending' | 'measured' | 'done' | 'skipped'
+    self.executed = []
+    self.outcomes = []
+    self.snaps = []
+    for e in events:
+      if e == 'p':
+        it = pg.sample(self.space, self.algo, name=self.study, group=f'w{len(self.fbs)}',
+                       metrics_to_optimize=metrics)
+        try:
+          _, fb = next(it)
+        except StopIteration:
+          break
+        self.fbs.append(fb)
+        self.state.append('pending')
+        self.outcomes.append(str(fb.dna))
+      else:
+        op, i = e
+        if i >= len(self.fbs) or self.state[i] in ('done', 'skipped'):
+          continue
+        fb = self.fbs[i]
+        if op == 'd':
+          fb.add_measurement(*args[i], step=2)
+          fb.done()
+          self.state[i] = 'done'
+        elif op == 'm':
+          fb.add_measurement(*args[i - 1], step=1)
+          self.state[i] = 'measured'
+        else:
+          self.state[i] = 'skipped-after-measurement' if self.state[i] == 'measured' else 'skipped'
+          fb.skip()
+          self.state[i] = 'skipped'
+      self.executed.append(e)
+      self.snaps.append(dict(
+          events=list(self.executed),
+          trials_json=pg.to_json_str(pg.tuning.poll_result(self.study).trials),
+          obs=_observe(self.algo), k=len(self.fbs), state=list(self.state)))
+    self.tail = []
+    for _ in range(extra):
+      try:
+        self.tail.append(str(self.algo.propose()))
+      except StopIteration:
+        self.tail.append('STOP')
+        break
+
+
+def _trial_class(state):
+  if 'skipped' in state:
+    return 'with-skipped-trials'
+  if 'measured' in state:
+    return 'with-measured-pending-trials'
+  if 'pending' in state:
+    return 'with-pending-trials'
+  return 'all-trials-completed'
+
+
+_W_TRIALS = """import pyglove as pg
+from pyglove.ext import evolution as ev
+S={space}
+mk=lambda:{algo}
+M={metrics};E={events};R={args}
+a=mk();n='w%d'%id(a);F=[]
+for e in E:
+  if e=='p':F.append(next(pg.sample(S,a,name=n,group=str(len(F)),metrics_to_optimize=M))[1])
+  elif e[0]=='d':F[e[1]].add_measurement(*R[e[1]],step=2);F[e[1]].done()
+  elif e[0]=='m':F[e[1]].add_measurement(*R[e[1]-1],step=1)
+  else:F[e[1]].skip()
+T=pg.from_json_str(pg.to_json_str(pg.tuning.poll_result(n).trials))
+b=mk();b.setup(S);b.recover([(t.dna,t.get_reward_for_feedback(M)) for t in T])
+"""
+
+
+def drv_recover_from_trials(tier, seed):
+  quick = tier == 'quick'
+  n = 6 if quick else 9
+  m = 2 if quick else 4
+  rec = Recorder(
+      'C15', 'recover() from the trials stored by a tuning backend',
+      scope=('uninterrupted run through pg.sample (in-memory backend, one worker group per '
+             'proposal); Sweeping, Random(seed), Deduping(Sweeping), Evolution(Sweeping init), '
+             'regularized_evolution, hill_climb, nsga2; metrics_to_optimize reward / a named metric '
+             f'/ two objectives; N<={n} trials; trials completed in order, skipped (with and without '
+             'earlier measurements), left pending (with and without intermediate measurements); '
+             'crash after EVERY event; trials through pg JSON; history = (trial.dna, '
+             'trial.get_reward_for_feedback(metrics)); compares counts, population+fitness, dedup '
+             f'memory, the next {m} proposals of the deterministic generators'
+             + ('; quick: 1 space x 2 patterns per algorithm, rotated by seed' if quick else '')))
+  for ci, (kind, algo_expr, metrics, det, spaces) in enumerate(_trial_configs(tier, seed)):
+    if quick:
+      spaces = [spaces[(seed + ci) % len(spaces)]]
+    for j, sp in enumerate(spaces):
+      space_expr = SPACES[sp]
+      pats = _trial_patterns(n)
+      if quick:
+        pats = _rot(pats, ci + j + seed, 2)
+      r = rng(seed, f'c15-trials-{algo_expr}-{sp}')
+      rewards = _rewards(n + 1, len(metrics) > 1, r)
+      args = [_measurement_args(metrics, x) for x in rewards]
+      for pname, events in pats:
+        run = rec.guard('trials.uninterrupted-run-error', (algo_expr, sp, pname),
+                        lambda: _TrialRun(algo_expr, space_expr, metrics, events, args, m + 1),  # pylint: disable=cell-var-from-loop
+                        witness=f'# pg.sample with {algo_expr} on {space_expr} raised')
+        if run is None or run is False:
+          continue
+        allp = run.outcomes + run.tail
+        for ci2, snap in enumerate(run.snaps):
+          key = (algo_expr, sp, pname, ci2)
+          tcls = _trial_class(snap['state'])
+
+          def wit(check, m_=0, _s=snap):
+            w = _W_TRIALS.format(space=space_expr, algo=algo_expr, metrics=metrics,  # pylint: disable=cell-var-from-loop
+                                 events=repr(_s['events']).replace(' ', ''),
+                                 args=repr(args[:_s['k'] + 1]).replace(' ', ''))  # pylint: disable=cell-var-from-loop
+            w += (_W_CONT.format(m=m_) if check == 'continuation' else _W_CHECK[check] + '\n')
+            return w + 'x,y=f(b),f(a)\nassert x==y,(x,y)'
+          try:
+            trials = pg.from_json_str(snap['trials_json'])
+            hist = [(t.dna, t.get_reward_for_feedback(metrics)) for t in trials]
+            b = _recovered(algo_expr, run.space, hist)
+          except Exception as e:  # pylint: disable=broad-except
+            rec.case(f'trials.recover-raises/{tcls}', key, False,
+                     f'building the history from the stored trials / recover raised '
+                     f'{type(e).__name__}: {e}', wit('counts'))
+            continue
+          oa, ob = snap['obs'], _observe(b)
+          ok = rec.case(f'trials.counts/{tcls}', key, ob['counts'] == oa['counts'],
+                        f'recovered (num_proposals, num_feedbacks)={ob["counts"]}, uninterrupted '
+                        f'{oa["counts"]}; trial states {snap["state"]}', wit('counts'))
+          if not ok:
+            continue      # the replayed rewards are not those of the live run
+          if 'pop' in oa:
+            rec.case(f'trials.population/{tcls}', key, ob['pop'] == oa['pop'],
+                     f'recovered population {ob["pop"]}, uninterrupted {oa["pop"]}', wit('pop'))
+          if oa.get('cache') is not None and ob.get('cache') is not None:
+            ca = {k: len(v) for k, v in oa['cache'].items()}
+            cb = {k: len(v) for k, v in ob['cache'].items()}
+            rec.case(f'trials.dedup-memory/{tcls}', key, ca == cb,
+                     f'recovered key->count {cb}, uninterrupted {ca}', wit('cache_counts'))
+          if det:
+            want = allp[snap['k']:snap['k'] + m]
+            if 'STOP' in want:
+              want = want[:want.index('STOP') + 1]
+            got = _continue(b, len(want)) if want else []
+            rec.case(f'trials.continuation/{kind}/{tcls}', key, got == want,
+                     f'recovered instance continues with {got}, uninterrupted run with {want}',
+                     wit('continuation', len(want)))
+  return rec.result()
+
+
+DRIVERS = [drv_recover_deterministic, drv_recover_evolution, drv_recover_dedup_evolution,
+           drv_recover_from_trials]
 
 
 def replay(rec):
